@@ -1,6 +1,6 @@
 #!/usr/bin/env python3
 """Checker self-test by mutation (developer tool, not a registered check).
-mutants/<prop>.py defines MUTANTS = [(id, file, old, new, expected_rule_or_None), ...]: exact-text edits of
+mutants/<prop>.py defines MUTANTS = [(id, file, old, new, expected rule | None = documented miss | 'SILENT' = behaviour-preserving, must not be reported), ...]: exact-text edits of
 /repo (must match exactly once).  Each is applied to /repo's working tree, the property's check is run
 (expects exit 1 and the rule id in the output), and the edit is undone with git checkout.  An edit that no
 longer applies is reported as skipped."""
@@ -30,8 +30,13 @@ def main():
                 open(path, 'w').write(s.replace(old, new))
                 r = subprocess.run([sys.executable, os.path.join(VERIF, 'check.py'), prop, '--no-fixtures'], capture_output=True, text=True, cwd=VERIF)
                 lines = [l for l in r.stdout.splitlines() if l.startswith('  R-') or l.startswith('ANALYSIS')]
-                ok = r.returncode == 1 and (rule is None or any(rule in l for l in lines))
-                res.append((prop, mid, 'CAUGHT' if ok else 'MISSED (exit %d)' % r.returncode, lines[:3]))
+                if rule == 'SILENT':      # behaviour-preserving edit: the check must stay quiet
+                    res.append((prop, mid, 'CAUGHT (silent, as required)' if r.returncode == 0 else 'FALSE ALARM (exit %d)' % r.returncode, lines[:3]))
+                elif rule is None:        # documented miss: a real break outside what the rules decide
+                    res.append((prop, mid, 'CAUGHT (documented miss, exit %d)' % r.returncode if r.returncode in (0, 1) else 'BROKEN (exit %d)' % r.returncode, lines[:1]))
+                else:
+                    ok = r.returncode == 1 and any(rule in l for l in lines)
+                    res.append((prop, mid, 'CAUGHT' if ok else 'MISSED (exit %d)' % r.returncode, lines[:3]))
             finally:
                 subprocess.run(['git', '-C', REPO, 'checkout', '--', file], check=True)
             print(res[-1])
